@@ -256,6 +256,38 @@ def dsge_family_scenario(h: Harness, rng):
         h.count("dsge-families" + (":violated" if bad else ""))
 
 
+def read_only_calls_scenario(h: Harness, rng):
+    """things a user does with a grammar BETWEEN two mappings that only read it -- printing it, printing its symbols, asking for its
+    summary -- change nothing: the same genotype maps to the same program before and after, through the representation that mapped it
+    first and through a new one"""
+    import evtgrammar
+    g = evtgrammar.grammar()
+    shared = NativeRandomSource(rng.randrange(10**6))
+    mk = {"GE": lambda: GE(g, synth.make_decider("grow", 5, shared, g), gene_length=32), "DynamicSGE": lambda: DSGE(g, 5)}
+    reps = {n: f() for n, f in mk.items()}
+    genos = {n: [reps[n].create_genotype(shared) for _ in range(h.n(12, 40))] for n in mk}
+    first = {n: [safe(lambda: reps[n].genotype_to_phenotype(ge)) for ge in genos[n]] for n in mk}
+    events = [("repr(grammar)", lambda: repr(g)), ("str() of every symbol and field type", lambda: [str(t) for t in g.get_all_mentioned_symbols()]),
+              ("grammar.get_grammar_properties_summary()", lambda: g.get_grammar_properties_summary()),
+              ("a structured-GE genotype created for the same grammar", lambda: SGE(g, synth.make_decider("grow", 5, shared, g), gene_length=8).create_genotype(shared))]
+    for label, ev in events:
+        safe(ev)
+        for n in mk:
+            fresh = mk[n]()
+            for i, ge in enumerate(genos[n]):
+                st0, p0 = first[n][i]
+                a = repr(p0) if st0 == "ok" else f"error:{p0}"
+                for which, rp in (("the representation that mapped it first", reps[n]), ("a new representation", fresh)):
+                    st, p = safe(lambda: rp.genotype_to_phenotype(ge))
+                    c = repr(p) if st == "ok" else f"error:{p}"
+                    h.seen(f"read-only:{label}:{n}:{i}:{which[:5]}", nontrivial=st == "ok")
+                    if a != c:
+                        h.fail(f"{n}.genotype_to_phenotype", "same-genotype-different-program",
+                               f"genotype #{i} mapped to {a[:100]}; after {label} it maps to {c[:100]} through {which} (same grammar object, same genes)", [n, i, label])
+                        return
+        h.count(f"read-only-calls:{label.split('(')[0]}")
+
+
 def grammar_events_scenario(h: Harness, rng):
     """the program of a genotype is determined by the genotype and the grammar as it IS: (1) after `Grammar.update_weights` changed
     the production weights, a representation built BEFORE the update maps a genotype to the same program as one built after it;
@@ -320,6 +352,7 @@ def run(h: Harness):
     persistent_handler_scenario(h, rng)
     short_lived_genotypes_scenario(h, rng)
     dsge_family_scenario(h, rng)
+    read_only_calls_scenario(h, rng)
     grammar_events_scenario(h, rng)
     C = gram.ClassSpec
     # fixed grammars with PLAIN float / str fields (drawn through the derived primitives of the gene-backed sources)
